@@ -54,7 +54,7 @@ Definition problem_eqb (a b : problem) : bool :=
   origin_eqb (p_origin a) (p_origin b) &&
   Nat.eqb (p_nvars a) (p_nvars b) && Nat.eqb (p_nobjs a) (p_nobjs b) && Nat.eqb (p_nconstrs a) (p_nconstrs b) &&
   list_eqb dir_eqb (p_dirs a) (p_dirs b) && list_eqb String.eqb (p_cons a) (p_cons b).
-Definition fval_same (a b : fval) : bool := opt_eqb xsame a b.
+Definition fval_same (a b : js_fval) : bool := opt_eqb xsame a b.
 
 (* ---- literals the driver writes ---- *)
 Definition dummy_problem : problem := mkProblem Supplied "" 0 0 0 None [] [] [].
@@ -65,7 +65,7 @@ Definition S19 (vars objs cons : list (jvalue Z)) : psol Z := mkSol Z dummy_prob
 Record lsol := L19 {
   l_vars : list (jvalue Z); l_objs : list (jvalue Z); l_cons : list (jvalue Z);
   l_cvzero : bool;              (* constraint_violation == 0.0 *)
-  l_cv : option fval;           (* Some v: the float computation was exact (driver-checked), v its value (None = NaN) *)
+  l_cv : option js_fval;           (* Some v: the float computation was exact (driver-checked), v its value (None = NaN) *)
   l_feas : bool;                (* feasible *)
   l_prob : problem              (* solution.problem, origin Supplied iff it IS the supplied object *)
 }.
@@ -73,7 +73,7 @@ Record lsol := L19 {
 Record c19case := K19 {
   k_saved : saved Z;                       (* what save_json was handed *)
   k_supplied : option problem;             (* problem= argument of load_json *)
-  k_ctab : list (string * (cop * xq));     (* real Constraint(op) -> (operator, threshold) *)
+  k_ctab : list (string * (js_cop * xq));     (* real Constraint(op) -> (operator, threshold) *)
   k_file : jvalue Z;                       (* the written file as plain json (no hooks) reads it *)
   k_loaded : list lsol;                    (* what load_json returned *)
   k_oneprob : bool                         (* all loaded solutions share ONE problem object *)
@@ -82,7 +82,7 @@ Record c19case := K19 {
 Definition sol_matches (o : psol Z) (l : lsol) : bool :=
   list_eqb jeqb (ps_vars Z o) (l_vars l) && list_eqb jeqb (ps_objs Z o) (l_objs l) &&
   list_eqb jeqb (ps_cons Z o) (l_cons l) &&
-  Bool.eqb (fzero (ps_cv Z o)) (l_cvzero l) &&
+  Bool.eqb (js_fzero (ps_cv Z o)) (l_cvzero l) &&
   match l_cv l with Some v => fval_same (ps_cv Z o) v | None => true end &&
   Bool.eqb (ps_feas Z o) (l_feas l) &&
   problem_eqb (ps_prob Z o) (l_prob l).
